@@ -62,7 +62,7 @@ var slotKinds = []string{
 	"nil-flag-sig-for-block", "commit-flag-sig-for-nil",
 	"wrong-chain", "wrong-height", "wrong-round", "wrong-block", "wrong-psh", "wrong-type",
 	"wrong-signer-member", "wrong-signer-outsider", "garbage-sig", "absent-with-data",
-	"wrong-address-member", "wrong-address-unknown", "repeat-signer", "ts-mismatch",
+	"wrong-address-member", "wrong-address-unknown", "repeat-signer", "ts-mismatch", "unknown-flag",
 }
 
 type scenario struct {
@@ -253,6 +253,20 @@ func genScenario(t *rapid.T, maxN int) scenario {
 			cs.Signature = sign(vs.Keys[j], right, ts)
 		case "ts-mismatch":
 			cs.Signature = sign(key, right, ts.Add(time.Nanosecond))
+		case "unknown-flag":
+			// a flag value outside absent / commit / nil (a commit built in memory: the wire decoder refuses these),
+			// over a signature that would be valid for the block, for nil, or over garbage
+			cs.BlockIDFlag = types.BlockIDFlag(rapid.SampledFrom([]byte{0, 4, 5, 200, 255}).Draw(t, "flag"))
+			switch rapid.IntRange(0, 2).Draw(t, "flagsig") {
+			case 0:
+				cs.Signature = sign(key, right, ts)
+			case 1:
+				s := right
+				s.id = nil
+				cs.Signature = sign(key, s, ts)
+			default:
+				cs.Signature = rapid.SliceOfN(rapid.Byte(), 64, 64).Draw(t, "garbage")
+			}
 		}
 		sigs[i] = cs
 	}
@@ -382,6 +396,17 @@ func refVerifySlot(pub []byte, chain string, c *types.Commit, cs types.CommitSig
 	return len(pub) == stded.PublicKeySize && stded.Verify(stded.PublicKey(pub), msg, cs.Signature)
 }
 
+// noPanic: a verifier that panics has not accepted (the full variant panics on flag values that do not exist); what
+// the property forbids is acceptance.
+func noPanic(f func() error) (err error) {
+	defer func() {
+		if r := recover(); r != nil {
+			err = fmt.Errorf("panic: %v", r)
+		}
+	}()
+	return f()
+}
+
 // refTally: byIndex => validator = vals[idx] (full and light variants); else lookup by address (trusting variant).
 func refTally(vals *types.ValidatorSet, chain string, c *types.Commit, byIndex bool) refResult {
 	r := refResult{tally: new(big.Int), total: new(big.Int), allValid: true}
@@ -391,6 +416,12 @@ func refTally(vals *types.ValidatorSet, chain string, c *types.Commit, byIndex b
 	seen := map[string]bool{}
 	for idx, cs := range c.Signatures {
 		if cs.BlockIDFlag == types.BlockIDFlagAbsent {
+			continue
+		}
+		if cs.BlockIDFlag != types.BlockIDFlagCommit && cs.BlockIDFlag != types.BlockIDFlagNil {
+			// no such flag: the slot counts for nothing and the commit is not one "all of whose signatures are valid"
+			r.allValid = false
+			r.nonCount++
 			continue
 		}
 		var val *types.Validator
@@ -463,7 +494,11 @@ func TestFullAndLight(t *testing.T) {
 		sc := genScenario(t, maxN)
 		// the caller's expectation may differ from what the commit says
 		chain, height, blockID := sc.chain, sc.height, sc.blockID
-		switch rapid.SampledFrom([]string{"same", "same", "same", "same", "chain", "height", "block", "psh"}).Draw(t, "expect") {
+		switch rapid.SampledFrom([]string{"same", "same", "same", "same", "same", "chain", "height", "block", "psh", "zero", "hash-only"}).Draw(t, "expect") {
+		case "zero":
+			blockID = types.BlockID{} // the caller names no block at all
+		case "hash-only":
+			blockID.PartSetHeader = types.PartSetHeader{}
 		case "chain":
 			chain = sc.chain + "y"
 		case "height":
@@ -482,8 +517,8 @@ func TestFullAndLight(t *testing.T) {
 
 		warmed := warmUp(t, sc)
 		subject, wire := viaWire(t, sc.vs.Set, "wire")
-		errFull := subject.VerifyCommit(chain, blockID, height, sc.commit)
-		errLight := subject.VerifyCommitLight(chain, blockID, height, sc.commit)
+		errFull := noPanic(func() error { return subject.VerifyCommit(chain, blockID, height, sc.commit) })
+		errLight := noPanic(func() error { return subject.VerifyCommitLight(chain, blockID, height, sc.commit) })
 
 		nontrivial := ref.nonCount > 0 || nearThreshold(ref, 2, 3)
 		cls := []string{"profile:" + sc.profile, fmt.Sprintf("full-accept:%v", errFull == nil), fmt.Sprintf("threshold:%v", threshold),
@@ -633,7 +668,7 @@ func TestTrusting(t *testing.T) {
 		inDomain := true
 		warmed := warmUp(t, sc)
 		subject, wire := viaWire(t, trusted, "wire")
-		err := subject.VerifyCommitLightTrusting(chain, sc.commit, level)
+		err := noPanic(func() error { return subject.VerifyCommitLightTrusting(chain, sc.commit, level) })
 
 		num, den := new(big.Int).SetUint64(level.Numerator), new(big.Int).SetUint64(level.Denominator)
 		threshold := level.Denominator != 0 && above(ref.tally, ref.total, num, den)
